@@ -207,6 +207,23 @@ Proof.
   intros I sk a H env g. destruct (call_ni I sk a H) as (o & k & _ & N & G). now rewrite G.
 Qed.
 
+(* ---------------------------------------------------------------- check_random_state as a decision table *)
+Lemma action_eqb_eq : forall a b, action_eqb a b = true -> a = b.
+Proof. intros [] [] H; try reflexivity; discriminate. Qed.
+
+Theorem crs_table_exact : forall tbl dflt, crs_table_ok tbl dflt = true ->
+  forall p (w : lworld), crs_by_table gstate value seed tbl dflt p w = crs p w.
+Proof.
+  intros tbl dflt H p w. unfold crs_table_ok in H.
+  apply andb_true_iff in H as [H Hb]. apply andb_true_iff in H as [H Hg]. apply andb_true_iff in H as [H Hi]. apply andb_true_iff in H as [_ Hn].
+  apply action_eqb_eq in Hn, Hi, Hg, Hb.
+  unfold crs_by_table. destruct p as [|s|g0|]; simpl kind_of.
+  - rewrite Hn. reflexivity.
+  - rewrite Hi. reflexivity.
+  - rewrite Hg. reflexivity.
+  - rewrite Hb. reflexivity.
+Qed.
+
 (* ---------------------------------------------------------------- RNG-free skeletons *)
 Definition df_post (env : nat -> gstate -> gstate) (I : interp) sk p c (w : lworld) : Prop :=
   exists c1 w1 k, hist w1 = hist w /\ srcs w1 = srcs w /\ ticks w1 = ticks w + k /\
